@@ -198,7 +198,8 @@ def random_history(seed, net="regtest", nblocks=14, thr=None, full=True, diffs=N
     thr = thr if thr is not None else rng.choice([1, 1, 2, 2, 3, 4])
     cfg = {"net": net, "thr": thr, "seed": seed,
            "lazy": rng.random() < 0.3 if lazy is None else lazy,
-           "gate": rng.random() < 0.7 if gate is None else gate}
+           "gate": rng.random() < 0.7 if gate is None else gate,
+           "burn": rng.random() < 0.3}
     cmds = [{"c": "tick", "dt": 100000}]
     delivered = {1}
     undelivered = []
@@ -276,12 +277,12 @@ def random_history(seed, net="regtest", nblocks=14, thr=None, full=True, diffs=N
                         cmds += probes(rng, w, max_h, w.naddr, heavy=heavy_probes)
             delivered.update(batch)
         if upgrades and rng.random() < 0.1:
-            cmds.append({"c": "upgrade", "d": rng.choice([{}, {}, {"thr": rng.choice([1, 2, 3])}, {"lazy": rng.random() < 0.5}])})
+            cmds.append({"c": "upgrade", "d": rng.choice([{}, {}, {"thr": rng.choice([1, 2, 3])}, {"lazy": rng.random() < 0.5}, {"burn": rng.random() < 0.5}])})
             cmds += probes(rng, w, max_h, w.naddr, heavy=heavy_probes)
         if rng.random() < 0.08:
             cmds.append({"c": "set_config", "d": rng.choice([{"thr": rng.choice([1, 2, 3, 4])}, {"gate": rng.random() < 0.5},
                                                             {"api": rng.random() < 0.8}, {"syncing": rng.random() < 0.8},
-                                                            {"lazy": rng.random() < 0.5}])})
+                                                            {"lazy": rng.random() < 0.5}, {"burn": rng.random() < 0.5}])})
         if rng.random() < 0.1:
             cmds.append({"c": "tick", "dt": rng.choice([1, 600, 7200])})
     # drain
